@@ -117,6 +117,18 @@ def run_case(case, ctx):
             return
         if not check_reads(ctx, again, ledger, stamps, 'after re-merging version %d (already in the store)' % i, mon_prefix='remerge_idempotent'):
             return
+    # several old versions re-merged one after the other into the growing store, in an arbitrary order
+    acc = store
+    order = [c for c in cands if c[0] != -1]
+    rng.shuffle(order)
+    for i, st_, s_ in (order + cands[:1])[:6]:
+        stx, acc = ctx.call(bi_merge, acc, Bi(s_, st_))
+        ctx.monitors['remerge_idempotent'] += 1
+        if stx != 'ok':
+            ctx.fail('remerge_idempotent', 're-merging version %d into the store of earlier re-merges raised %s' % (i, core.exc_str(acc)))
+            return
+        if not check_reads(ctx, acc, ledger, stamps, 'after re-merging old versions one after the other, last one %d' % i, mon_prefix='remerge_idempotent'):
+            return
     shared = len(set(stamps)) < len(stamps)
     revert = False
     for d, ents in ledger.items():
@@ -150,9 +162,12 @@ def check_reads(ctx, store, ledger, stamps, where, mon_prefix=None):
         Ts.append(a + (b - a) / 2 if b is not None else a + datetime.timedelta(hours=5))
     Ts.append(None)
     snap0 = (list(store.index), _vl(store)) if hasattr(store, 'values') else None
-    for T in Ts:
+    import pandas as _pd
+    for ti, T in enumerate(Ts):
         for what in (-1, 0):
-            st, res = ctx.call(bi_read, store, T, what)
+            # the read time in the flavours a caller may hold it in: datetime, pandas Timestamp, numpy datetime64
+            Tq = T if T is None or (ti + what) % 3 == 0 else (_pd.Timestamp(T) if (ti + what) % 3 == 1 else np.datetime64(T))
+            st, res = ctx.call(bi_read, store, Tq, what)
             exp = ledger_read(ledger, T, what)
             mon = mon_prefix or ('asof_read_last' if what == -1 else 'asof_read_first')
             ctx.monitors[mon] += 1
